@@ -108,10 +108,17 @@ def _strategy(tier):
     return st.tuples(G.url_structs(max_segments=6 if big else 4, host_strategy=_host_strategy()), st.booleans())
 
 
+_PROTO = __import__("re").compile(r"^[a-zA-Z]{0,64}:?//")
+
+
 def _to_case(v):
     s, sa = v
     url = _fix_edges(G.serialise(s)).replace("|", "%7C")
-    return {"kind": "lru", "url": url, "scheme_form": s["scheme_form"], "suffix_aware": sa}
+    form = s["scheme_form"]
+    if form == "absent" and _PROTO.match(url):
+        # 'localhost//x' carries a protocol by ural's documented notion: not a scheme-less URL; give it an explicit scheme
+        url, form = "http://" + url, "explicit"
+    return {"kind": "lru", "url": url, "scheme_form": form, "suffix_aware": sa}
 
 
 def _features(case):
